@@ -454,6 +454,24 @@ func rulePrunesImpl(scopeFiles func(file string) bool, ruleID string, min int, p
 					} else {
 						report("default(absent)", sw.stmt, []types.Type{nodeIface}, exitAfterSwitchWithoutDescend(fc, desc, sw.stmt, vl.lit, exitReachable))
 					}
+				} else if chain := assertIfChain(info, vl.lit.Body, nodeAliases); len(chain) >= 2 {
+					// a type switch written as top-level `if t, ok := node.(T); ok [&& ...] { ... }` statements: every way out of
+					// the callback passes the body of one of them (that case) or of none (the default)
+					saved := map[*cfg.Block]bool{}
+					for _, ch := range chain {
+						report("case "+typeLabel(ch.typ), ch.stmt, []types.Type{ch.typ}, exitReachable(fc.BlockOf(ch.stmt.Body.List[0])))
+					}
+					for _, ch := range chain {
+						if b := fc.BlockOf(ch.stmt.Body.List[0]); b != nil && !desc[b] {
+							saved[b] = true
+							desc[b] = true
+						}
+					}
+					prunes := exitReachable(fc.Entry())
+					for b := range saved {
+						delete(desc, b)
+					}
+					report("default(absent)", vl.lit, []types.Type{nodeIface}, prunes)
 				} else {
 					// `t, ok := node.(T); if !ok { self.VisitChildren(node); return }` followed by the handling of T
 					// is a switch with one case and a descending default
@@ -1001,4 +1019,46 @@ func pinnedPruneExits() map[string]int {
 		}
 	}
 	return pinnedPruneExitsCache
+}
+
+type assertIf struct {
+	typ  types.Type
+	stmt *ast.IfStmt
+}
+
+// assertIfChain: the top-level statements of a visitor callback of the form `if t, ok := node.(T); ok [&& more] { body }`
+// (no else, non-empty body), when the callback has no type switch on the node.
+func assertIfChain(info *types.Info, body *ast.BlockStmt, nodeAliases map[types.Object]bool) []assertIf {
+	var out []assertIf
+	var list []*ast.IfStmt
+	for _, st := range body.List {
+		// an if / else-if chain contributes each of its links
+		for is, _ := st.(*ast.IfStmt); is != nil; is, _ = is.Else.(*ast.IfStmt) {
+			if _, finalElse := is.Else.(*ast.BlockStmt); finalElse {
+				list = nil
+				return nil // a final else is the default written out: not this form
+			}
+			list = append(list, is)
+		}
+	}
+	for _, is := range list {
+		if is.Init == nil || len(is.Body.List) == 0 {
+			continue
+		}
+		as, ok := is.Init.(*ast.AssignStmt)
+		if !ok || len(as.Lhs) != 2 || len(as.Rhs) != 1 {
+			continue
+		}
+		ta, ok := ast.Unparen(as.Rhs[0]).(*ast.TypeAssertExpr)
+		if !ok || ta.Type == nil || !nodeAliases[identObj(info, ta.X)] {
+			continue
+		}
+		okObj := identObj(info, as.Lhs[1])
+		first := conjuncts(is.Cond)[0]
+		if okObj == nil || identObj(info, first) != okObj {
+			continue
+		}
+		out = append(out, assertIf{info.TypeOf(ta.Type), is})
+	}
+	return out
 }
